@@ -115,6 +115,13 @@ def run(ctx):
             if name == "CUSUM" and k % 4 == 3:
                 hist = _plateau_stream(crng, cfg, n)
                 ctx.count("CUSUM:plateau-histories")
+            if name == "CUSUM" and k % 4 == 1:
+                # one observation of very large magnitude early in the history (a glitch, a unit mix-up): once it has left the last
+                # burn_in observations nothing of it may survive — statistics maintained incrementally over the whole stream would
+                # keep its rounding residue for ever
+                j = int(crng.integers(cfg["burn_in"] + 1, max(cfg["burn_in"] + 2, n // 4)))
+                hist[j] = float(crng.choice([3.0e8, -2.0 ** 31, 7.0e9]))
+                ctx.count("CUSUM:outlier-histories")
             det = fam.make(cfg)
             items = fam.start(det, cfg, hist) or hist
             setref_at = int(crng.integers(1, max(2, len(items) - 2))) if fam.kind == "batch" and crng.random() < 0.7 else None
